@@ -42,6 +42,12 @@ func (g *docGen) ws() {
 }
 
 var recKeyAlphabet = []int{'a', 'b', 'A', ' ', '!', '#', '[', ']', 0xE9, 0x2028, 0xE000, 0xFB01, 0xFFFF, 0x10000, 0x103FF, 0x10400, 0x10FC00, 0x1F600, 0x10FFFF, '"', '\\', 0, 0x1F, '/', 0x7F}
+
+// recOrderAlphabet: characters of every class an ordering of keys can tell apart (CanonJSON.tla section 8b): ASCII,
+// two-byte, BMP below the surrogates, BMP above the surrogates (private use, CJK compatibility, presentation forms,
+// fullwidth forms, specials), supplementary planes.  Keys over it share prefixes and differ first across two classes.
+var recOrderAlphabet = []int{'m', '.', 0x7F, 0x80, 0xE9, 0x7FF, 0x800, 0x2028, 0xD7FF, 0xE000, 0xF900, 0xFB01, 0xFE70, 0xFF01, 0xFFFD, 0xFFFF,
+	0x10000, 0x10437, 0x1F600, 0x20BB7, 0xE0001, 0x10FFFF}
 var recOddities = []int{0x2028, 0x2029, 0xFEFF, 0xFFFD, 0xFFFE, 0xFFFF, 0xD7FF, 0xE000, 0x10000, 0x103FF, 0x10400, 0x10FC00, 0x10FFFF, 0x7F, 0x80, 0x7FF, 0x800, 0x20, 0x1F}
 
 func (g *docGen) codePoint() int {
@@ -294,8 +300,11 @@ func (g *docGen) value(depth int) {
 		dupOK := r.Intn(40) == 0 // duplicate keys: outside the property's "valid", only "no panic"
 		seen := map[string]bool{}
 		var alphabet []int
-		if r.Intn(2) == 0 {
+		switch r.Intn(6) {
+		case 0, 1, 2:
 			alphabet = recKeyAlphabet // small alphabet: shared prefixes, escapes, UTF-16 / code point order
+		case 3:
+			alphabet = recOrderAlphabet // one class of characters against another, after shared prefixes
 		}
 		wrote := 0
 		for i := 0; i < n; i++ {
